@@ -93,7 +93,10 @@ DoRet ==
          c  == ex.call[t]
          g2 == QConcRet(gc, t, r)
          predicted == ex.drift = 0 /\ th[t].pc = "idle" /\ RetEq(th[t].ret, r)
-         v  == IF ex.single /\ t = 1 THEN QVerdict(g, c, r, predicted, QHasStale(ex.pre)) ELSE {}
+         \* single-threaded: the model runs the whole call from the observed pre-state (robust
+         \* against a different order of the steps inside the call)
+         macro == LET run == QRun(ex.pre, c, 50) IN ~run.hang /\ RetEq(run.me.ret, r) /\ run.sh = ob
+         v  == IF ex.single /\ t = 1 THEN QVerdict(g, c, r, macro, QHasStale(ex.pre)) ELSE {}
          extra == (IF r.t = "panic" THEN {"PANIC"} ELSE {})
                   \cup (IF r.t = "list" /\ ~SortedByTs(r.orders) THEN {"C19"} ELSE {})
                   \cup (IF g2.bad # {} THEN {"C08"} ELSE {})
